@@ -52,6 +52,8 @@ type summary struct {
 	ClockSites int            `json:"clock_sites"`
 	Ticks      int            `json:"ticks"`
 	ChanSites  int            `json:"chan_sites"`
+	LockSites  int            `json:"lock_sites"`
+	Uncontrolled map[string]int `json:"uncontrolled_nondeterminism,omitempty"`
 	Sites      []string       `json:"sites"`
 	Skipped    map[string]int `json:"skipped,omitempty"`
 }
@@ -62,6 +64,7 @@ func main() {
 	doClock := flag.Bool("clock", false, "")
 	doTick := flag.Bool("tick", false, "")
 	chanPkg := flag.String("chan", "", "")
+	doLocks := flag.Bool("locks", false, "")
 	flag.Parse()
 	if *dir == "" {
 		fmt.Fprintln(os.Stderr, "rewrite: -dir required")
@@ -105,7 +108,7 @@ func main() {
 			rel, _ := filepath.Rel(abs, fname)
 			r := &rewriter{
 				pkg: pkg, fset: pkg.Fset, file: file, rel: rel, sum: sum,
-				maps: *doMaps, clock: *doClock, tick: *doTick, chans: chanOn,
+				maps: *doMaps, clock: *doClock, tick: *doTick, chans: chanOn, locks: *doLocks,
 			}
 			if err := r.run(fname); err != nil {
 				fail(err)
@@ -132,6 +135,7 @@ type rewriter struct {
 	seq   int
 
 	maps, clock, tick, chans bool
+	locks                    bool
 	usedTime                 bool
 }
 
@@ -209,6 +213,90 @@ func (r *rewriter) pkgFunc(fun ast.Expr) (string, string) {
 		return "", ""
 	}
 	return fn.Pkg().Path(), fn.Name()
+}
+
+func (r *rewriter) note(what string) {
+	if r.sum.Uncontrolled == nil {
+		r.sum.Uncontrolled = map[string]int{}
+	}
+	r.sum.Uncontrolled[what]++
+}
+
+// rewriteLock turns X.Lock() / X.RLock() on sync.Mutex / sync.RWMutex into
+// simhook.SpinLock(X.TryLock / X.TryRLock) and X.Do(f) on sync.Once into
+// simhook.OnceDo(&X, f).
+func (r *rewriter) rewriteLock(call *ast.CallExpr) {
+	sel, ok := call.Fun.(*ast.SelectorExpr)
+	if !ok {
+		return
+	}
+	fn, ok := r.pkg.TypesInfo.Uses[sel.Sel].(*types.Func)
+	if !ok || fn.Pkg() == nil || fn.Pkg().Path() != "sync" {
+		return
+	}
+	sig, ok := fn.Type().(*types.Signature)
+	if !ok || sig.Recv() == nil {
+		return
+	}
+	recv := sig.Recv().Type()
+	if p, ok := recv.(*types.Pointer); ok {
+		recv = p.Elem()
+	}
+	named, ok := recv.(*types.Named)
+	if !ok {
+		return
+	}
+	switch named.Obj().Name() {
+	case "Pool":
+		r.note("sync.Pool")
+		return
+	case "Cond", "WaitGroup":
+		r.note("sync." + named.Obj().Name())
+		return
+	case "Mutex", "RWMutex":
+		if len(call.Args) != 0 || (fn.Name() != "Lock" && fn.Name() != "RLock") {
+			return
+		}
+		try := "TryLock"
+		if fn.Name() == "RLock" {
+			try = "TryRLock"
+		}
+		// X.Lock()  =>  simhook.SpinLock(X.TryLock)
+		r.replace(sel.Sel.Pos(), call.End(), try)
+		r.wrap2(call.Pos(), call.End(), "simhook.SpinLock(", ")")
+		r.sum.LockSites++
+	case "Once":
+		if fn.Name() != "Do" || len(call.Args) != 1 {
+			return
+		}
+		// only the direct form X.Do(f) with X of type sync.Once or *sync.Once
+		xt := r.pkg.TypesInfo.TypeOf(sel.X)
+		if xt == nil {
+			return
+		}
+		amp := "&"
+		if p, ok := xt.(*types.Pointer); ok {
+			xt = p.Elem()
+			amp = ""
+		}
+		if n2, ok := xt.(*types.Named); !ok || n2.Obj().Pkg() == nil || n2.Obj().Pkg().Path() != "sync" || n2.Obj().Name() != "Once" {
+			r.note("sync.Once(promoted)")
+			return
+		}
+		// X.Do(f)  =>  simhook.OnceDo(&X, f)
+		r.replace(sel.X.End(), call.Lparen+1, ", ")
+		r.wrap2(call.Pos(), call.Pos(), "simhook.OnceDo("+amp, "")
+		r.sum.LockSites++
+	}
+}
+
+// wrap2 inserts prefix at from and suffix at to.
+func (r *rewriter) wrap2(from, to token.Pos, prefix, suffix string) {
+	r.seq++
+	r.edits = append(r.edits, edit{start: r.off(from), end: r.off(from), rank: -1000000 + r.seq, text: prefix})
+	if suffix != "" {
+		r.edits = append(r.edits, edit{start: r.off(to), end: r.off(to), rank: 1000000 + r.seq, text: suffix})
+	}
 }
 
 func (r *rewriter) run(fname string) error {
@@ -308,8 +396,21 @@ func (r *rewriter) run(fname string) error {
 				r.wrap(n.X, "simhook.ChanRange(", fmt.Sprintf(", %q)", s))
 				r.sum.ChanSites++
 			}
+		case *ast.GoStmt:
+			r.note("go-statement")
 		case *ast.CallExpr:
+			if r.locks {
+				r.rewriteLock(n)
+			}
 			path, name := r.pkgFunc(n.Fun)
+			switch {
+			case path == "math/rand" || path == "math/rand/v2" || path == "crypto/rand":
+				r.note(path)
+			case path == "time" && (name == "Sleep" || name == "After" || name == "Tick" || name == "NewTimer" || name == "NewTicker" || name == "Since" || name == "Until" || name == "AfterFunc"):
+				r.note("time." + name)
+			case path == "os" && (name == "Getenv" || name == "Getpid" || name == "Hostname"):
+				r.note("os." + name)
+			}
 			switch {
 			case r.maps && path == "golang.org/x/exp/maps" && (name == "Keys" || name == "Values"):
 				s := r.site(n.Pos())
@@ -347,6 +448,7 @@ func (r *rewriter) run(fname string) error {
 				yieldBefore(n.Pos())
 			}
 		case *ast.SelectStmt:
+			r.note("select-statement")
 			if r.chans {
 				yieldBefore(n.Pos())
 			}
